@@ -346,7 +346,7 @@ def run(ctx, chk):
         if not hits:
             chk.ok("C19.R4", f"crate:{which}", f"{ncalls} call sites, none to a clock/RNG/env/thread-id/pointer-format service")
     # ---- R5
-    fn = P.by_name.get(("lib", "vm::VM::new"))
+    fn = P.find("lib", "vm::VM::new")
     if fn is None:
         chk.undecided_("C19.R5", "VM::new", "function not found")
     else:
@@ -359,8 +359,8 @@ def run(ctx, chk):
         if r is None or r.kind != "agg":
             chk.undecided_("C19.R5", "VM::new", f"abstract value {r!r}")
         else:
-            vmadt = P.adts["vm::VM"]["variants"][0]["fields"]
-            arch = P.adts["arch::i8086"]["variants"][0]["fields"]
+            vmadt = P.find_adt("vm::VM")["variants"][0]["fields"]
+            arch = P.find_adt("arch::i8086")["variants"][0]["fields"]
             want = {"flag": 0xF000, "cs": 0xFFFF}
             for (fname, fty), v in zip(vmadt, r.fields):
                 if fname == "arch":
@@ -377,7 +377,7 @@ def run(ctx, chk):
                         chk.ok("C19.R5", "VM::new:mem", "Box::new([0; 1048576]): fresh zeroed array, no store before return")
                     else:
                         chk.violation("C19.R5", "VM::new", "mem-not-zero", f"memory of a new machine is not a fresh zeroed array: {v!r}", where)
-        dflt = P.by_name.get(("lib", "<vm::VM as std::default::Default>::default"))
+        dflt = P.find("lib", "<vm::VM as std::default::Default>::default")
         if dflt is not None:
             cs = [t[1].get("def") for _, t in M.calls_in(dflt)]
             if cs == ["vm::VM::new"]:
